@@ -145,7 +145,9 @@ impl<TCompilationProfile: CompilationProfile> IsographDatabase<TCompilationProfi
             .get_iso_literal_map_mut()
             .tracked()
             .0
-            .extract_if(|k, _| k.to_string().starts_with(relative_path))
+            // Compare path components: a string prefix would also match siblings
+            // (removing `src/a` must not remove `src/ab/...`).
+            .extract_if(|k, _| std::path::Path::new(k.lookup()).starts_with(relative_path))
             .map(|(_, v)| v)
             .collect::<Vec<_>>();
 
